@@ -298,3 +298,12 @@ def test_fixed_F27_zero_probability_entry_in_the_initial_distribution():
     assert 'ghost' not in m.state_list
     assert ValueIteration().plan_on(m).initial_value == pytest.approx(-1.0)
     assert PolicyIteration().plan_on(m).initial_value == pytest.approx(-1.0)
+
+
+def test_fixed_F28_undiscounted_evaluation_with_weights_whose_float_sum_is_below_one():
+    from msdm.core.mdp import TabularPolicy
+    m = Dict2MDP({0: {x: {0: 1.0} for x in 'abc'}, 1: {x: {1: 1.0} for x in 'abc'}}, {(0, x): -1.0 for x in 'abc'}, {0: 1.0},
+                 absorbing=[1], lists=((0, 1), ('a', 'b', 'c')))
+    pol = TabularPolicy.from_state_action_lists(state_list=m.state_list, action_list=m.action_list,
+                                                data=np.array([[0.2, 0.7, 0.1], [0.2, 0.7, 0.1]]))
+    assert float(pol.evaluate_on(m).state_value[0]) == float('-inf')
